@@ -14,6 +14,18 @@ namespace Tealer.C11
     real parse_line equal the specification table (regenerated table vs committed spec, checked by the kernel) -/
 theorem C11_effects_table : (Generated.opTableChunks == Spec.opTableChunks) = true := by decide +kernel
 
+/-- the specification row of a sample line -/
+def specRow (l : String) : Option (String × Nat × Nat × Nat × Nat) :=
+  (Spec.opTable.find? (·.1 == l)).map fun (_, cls, _, po, pu, ver, mode) => (cls, po, pu, ver, mode)
+
+/-- THE VALUE OF AN IMMEDIATE DOES NOT CHANGE THE EFFECT: every non-family sample with a decimal immediate, re-parsed by the
+    real parse_line with that immediate replaced by 0, 1, 2 and 255 (`replace 0`, `gtxn 0 Fee`, `substring 0 255`, `arg 0`,
+    `load 255`, ...), has the class, pops, pushes, introduction version and mode of the specification row of its base sample -/
+theorem C11_effects_immediates :
+    Generated.immVariantsChunks.all (fun ch => ch.all fun (_, base, cls, po, pu, ver, mode) =>
+      specRow base == some (cls, po, pu, ver, mode)) = true := by
+  decide +kernel
+
 /-- AVM stack effect of the immediate families as formulas in the immediate -/
 def familySpec (op : String) (a : Int) (b : Nat) : Option (Nat × Nat) :=
   let n := a.toNat
